@@ -23,6 +23,20 @@
 // to 200 KB) and "small" (exhaustive small scope: every content variant x every
 // split into chunks x every error position x every constructor x every consumer
 // for digest sizes 0..3 quick / 0..6 thorough).
+//
+// Decorations (consume.go): between constructor and consumption the buffer may
+// be decorated the way bb-storage's own layers do it - WithTask (once, twice,
+// with a failing task) and WithErrorHandler (pass-through handler), before a
+// clone operation, on the clones, or both. A decorated CAS buffer is held to
+// the same clauses.
+//
+// Histories (history.go, engine "history" and part of "small"): the buffers
+// come from blobstore.NewValidationCachingReadBufferFactory(CASReadBufferFactory)
+// and the same digest is read several times through one factory, with the
+// stored content possibly changing between the reads. Every read of a digest
+// for which no positive integrity verdict has been observed yet is held to the
+// complete oracle; reads after a positive verdict are by design unvalidated
+// and nothing is asserted about them.
 package main
 
 import (
@@ -40,8 +54,11 @@ func main() {
 		Property: "C09",
 		Level:    "exploration",
 		Rule: "random: case = (digest function, size 0..200k, content kind match/bit-flip/truncated/extended/size-only-lie, optional source I/O error at a position, split into reads/chunks incl. empty ones and EOF-with-data, " +
-			"constructor reader/chunk reader/byte slice/reader-at factory, user/backend source) x one consumption (ToByteSlice, ToProto, ToReader with a read-size pattern, ToChunkReader(off,max), ReadAt(len,off), IntoWriter, CloneCopy, CloneStream with 2-3 concurrent clone consumers, Discard); " +
-			"small: every (digest size<=3 quick/<=6 thorough, content variant, error position, composition of the deliverable bytes, empty-chunk placement, EOF-with-data) x constructors x sources x a fixed list of ~50-150 consumers; " +
+			"constructor reader/chunk reader/byte slice/reader-at factory, user/backend source) x one consumption (ToByteSlice, ToProto, ToReader with a read-size pattern, ToChunkReader(off,max), ReadAt(len,off), IntoWriter, CloneCopy, CloneStream with 2-3 concurrent clone consumers, Discard), " +
+			"1/3 of them decorated (WithTask x1/x2/failing task, pass-through WithErrorHandler, both orders) at the root, at the clones or both; " +
+			"history: case = one validation-caching read-buffer factory (cache of 1-4 digests, key with/without instance) x 1-2 digests x 2-5 successive reads, each with its own stored content (unchanged with p=2/3, else re-drawn match/flip/trunc/extend; size-lying digests keep their content), factory constructor byte slice/reader-at/reader, delivery and consumption as above; oracle applies to every read of a digest not yet positively validated in that history; " +
+			"small: every (digest size<=3 quick/<=6 thorough, content variant, error position, composition of the deliverable bytes, empty-chunk placement, EOF-with-data) x constructors x sources x a fixed list of ~65-165 consumers (15 of them decorated), " +
+			"plus for every unsplit script a history of 24 successive reads (a window of that list) through one validation-caching factory per cacheable constructor; " +
 			"distinct = hash of scenario+consumer; non-trivial = the content mismatches the digest or the source fails, i.e. the monitor must see a rejection",
 		Workers:     8,
 		CaseTimeout: 120 * time.Second,
@@ -78,16 +95,33 @@ func main() {
 			"leaf_ReadAt":                  57000,
 			"leaf_IntoWriter":              12000,
 			"leaf_Discard":                 14000,
-			"fn_BLAKE3":                    5000,
-			"fn_GITSHA1":                   5000,
-			"fn_MD5":                       5000,
-			"fn_SHA1":                      5000,
-			"fn_SHA256":                    5000,
-			"fn_SHA256TREE":                5000,
-			"fn_SHA384":                    5000,
-			"fn_SHA512":                    5000,
-			"thorough:executions":          6000000,
-			"thorough:random_large_blobs":  10000,
+			// Decorated buffers and histories (~1/5 of quick at seed 1).
+			"decorated_leaves":                        49000,
+			"decorated_mismatch_rejected":             38000,
+			"decorated_match_completed":               3200,
+			"decorated_leaf_ToByteSlice":              4800,
+			"decorated_leaf_ToProto":                  3200,
+			"decorated_leaf_ToReader":                 8000,
+			"decorated_leaf_ToChunkReader":            16000,
+			"decorated_leaf_ReadAt":                   8000,
+			"decorated_leaf_IntoWriter":               4800,
+			"ctor_validationCachingByteSliceBuffer":   3500,
+			"ctor_validationCachingReaderAtBuffer":    4400,
+			"ctor_validationCachingReaderBuffer":      1600,
+			"history_attempts_asserted":               8600,
+			"history_two_digests":                     800,
+			"reread_asserted":                         5500,
+			"reread_mismatch_after_negative_asserted": 3300,
+			"fn_BLAKE3":                               5000,
+			"fn_GITSHA1":                              5000,
+			"fn_MD5":                                  5000,
+			"fn_SHA1":                                 5000,
+			"fn_SHA256":                               5000,
+			"fn_SHA256TREE":                           5000,
+			"fn_SHA384":                               5000,
+			"fn_SHA512":                               5000,
+			"thorough:executions":                     6000000,
+			"thorough:random_large_blobs":             10000,
 		},
 		Assumptions: []string{
 			"sources are sticky: after EOF or an I/O error every further read returns the same condition",
@@ -95,6 +129,8 @@ func main() {
 			"for consumer calls with invalid arguments (maximum size below the digest's size, offset outside [0,size], content that is no Protobuf message) any error is accepted; success still requires matching content",
 			"ReadAt/Read deliver p[:n]; bytes the validating reader wrote beyond n into the caller's slice are scratch",
 			"digests of MD5/SHA1/SHA256/SHA384/SHA512/GITSHA1 come from the Go standard library, BLAKE3/SHA256TREE from bb-storage's own generator",
+			"decorations: the background task returns at once and the error handler passes every error through without a replacement buffer (what tasks and handlers promise is C15's / C16's); when a task fails, its error in place of the mismatch / source error is accepted",
+			"validation caching: after a positive integrity verdict for a digest, later reads of that digest through the same factory are by design not validated; nothing is asserted about them. The cache's clock is constant (entries never expire within a history)",
 		},
 		Body: body,
 	})
